@@ -53,7 +53,7 @@ def plan(tier, seed):
             shards.append({'kind': 'random', 'part': i, 'n': 100})
     else:
         for i in range(47):
-            shards.append({'kind': 'random', 'part': i, 'n': 1300})
+            shards.append({'kind': 'random', 'part': i, 'n': 1100})
     return shards
 
 
